@@ -537,6 +537,43 @@ def run_axi(doc, log):
         if abs(g - f[p, cidx]) > 1e-5 * sc + 1e-8 * Fu:
             raise Violation(PROP, "axisymmetric-energy", f"axisymmetric nodal force {f[p, cidx]:.8e} differs from the derivative of the 2 pi R weighted energy {g:.8e} (point {p}, component {cidx})", site="FieldAxisymmetric.vector")
         log.count("axisymmetric-energy-compared")
+    # a second model on the SAME region object after the geometry was moved radially in place
+    # (mesh.update with the region's reload as callback - a study over the tube radius): forces of a
+    # new axisymmetric field on the reloaded region against the energy with independently
+    # interpolated radii
+    newp = w.mesh.points.copy()
+    newp[:, 1] = 1.5 * newp[:, 1] + 0.3 * Lu
+    w.mesh.update(points=newp, callback=w.region.reload)
+    if np.any(w.region.dV <= 0):
+        raise Discard("invalid-mesh-after-reload")
+    fld2 = fem.FieldContainer([fem.FieldAxisymmetric(w.region, dim=2)])
+    hq = np.asarray(w.region.h)[..., 0] if np.asarray(w.region.h).ndim == 3 else np.asarray(w.region.h)  # (a, q)
+    R2 = np.einsum("aq,ca->qc", hq, w.mesh.points[w.mesh.cells][:, :, 1])
+    dV2 = 2 * np.pi * R2 * w.region.dV
+    u2 = 0.02 * Lu * rng.normal(size=(w.mesh.npoints, 2))
+
+    def energy2(vals):
+        fld2[0].values[...] = vals
+        F = fld2.extract()[0]
+        W = um.function([F, np.zeros((0,) + F.shape[-2:])])[0]
+        return float((W * dV2).sum())
+
+    fld2[0].values[...] = u2
+    f2 = fem.SolidBody(um, fld2).assemble.vector(field=fld2).toarray().reshape(u2.shape)
+    for _ in range(3):
+        p = int(rng.integers(u2.shape[0]))
+        cidx = int(rng.integers(2))
+        h = 1e-6 * Lu
+        up, um_ = u2.copy(), u2.copy()
+        up[p, cidx] += h
+        um_[p, cidx] -= h
+        g = (energy2(up) - energy2(um_)) / (2 * h)
+        if not (np.isfinite(g) and np.isfinite(f2[p, cidx])):
+            raise Discard("axisymmetric-probe-state-outside-domain")
+        sc = float(np.abs(f2).max()) + 1e-9 * Fu
+        if abs(g - f2[p, cidx]) > 1e-5 * sc + 1e-8 * Fu:
+            raise Violation(PROP, "axisymmetric-energy", f"new axisymmetric field on a region reloaded after a radial move of the mesh: nodal force {f2[p, cidx]:.8e} differs from the derivative of the 2 pi R weighted energy {g:.8e} (point {p}, component {cidx})", site="FieldAxisymmetric.vector[after-region-reload]")
+    log.count("axisymmetric-energy-after-reload")
     return eng
 
 
